@@ -9,7 +9,7 @@ Sections (all fed by the same rendered documents):
   doc-pdf-outlines       Page.bookmarks -> model `pdfoutl` == outline dictionaries of the PDF, every field
   doc-pdf-links          Page.links/anchors -> model `doclinks` == /Annots of every page and /Names /Dests
   doc-info               <title>/<meta>/lang of the generated document -> model `info` == /Info and /Lang
-  doc-link-elements      links / ids of the generated document -> model `docspec` == Page.links / Page.anchors
+  doc-link-elements      href, rel, id, name attributes of the generated document -> model `docels` == Page.links / Page.anchors
 """
 import html as html_mod
 import urllib.parse
@@ -34,6 +34,13 @@ TRANSFORMS = [
 ]
 META_STRINGS = ['Plain title', 'Ünïcödé 中文 😀', 'with (parens) and \\ backslash', '  spaced  out  ', 'a,b', '',
                 'tab\there', 'line\nbreak', 'nbsp end ', 'Ω', 'x' * 60, '&amp; <tag> "q" \'s\'']
+
+
+# horizontal / vertical margins, paddings and borders of inline links, anchors and bookmarked spans: the clickable
+# rectangle is the border box horizontally and the line height vertically, whatever the margins
+INLINE_BOX_STYLES = ['margin:0 8px', 'margin:0 4px 0 12px;padding:0 4px', 'padding:2px 4px;border:1px solid',
+                     'margin:0 -4px 0 8px', 'margin:4px 16px;padding:0 2px;border-left:2px solid', 'margin-left:20px',
+                     'margin-right:12px;padding-right:8px']
 
 
 class Unsupported(Exception):
@@ -62,17 +69,26 @@ def gen_link(rng, counter):
                           'http://example.org/%C3%A9'])
         link.update(type='external', target=url, href=url)
     elif kind == 'relative':
-        rel = rng.choice(['rel/x.html', 'other.html#sec', '../up'])
+        rel = rng.choice(['rel/x.html', 'other.html#sec', '../up', '?page=2#top', '?q=a#a'])
         link.update(type='external', target=None, href=rel)      # target: urljoin(base, rel), filled at render time
     else:
         data = rng.choice(['data:text/plain,hello', 'data:text/plain,bye', 'data:,x'])
         link.update(type='attachment', target=data, href=data)
-    if rng.random() < 0.15:
+    # rel: `attachment` is a space-separated, ASCII case-insensitive token
+    if link['type'] == 'attachment':
+        link['rel'] = rng.choice(['attachment', 'attachment', 'Attachment', 'nofollow ATTACHMENT', 'attachment\tx'])
+    else:
+        link['rel'] = rng.choice([None, None, None, None, 'attachments', 'nofollow', 'attach ment'])
+    k = rng.random()
+    if k < 0.15:
         link['id'] = rng.choice(NAME_POOL)
-    elif rng.random() < 0.1:
+    elif k < 0.25:
         link['name'] = rng.choice(NAME_POOL)
+    elif k < 0.29:
+        link['id'], link['name'] = rng.sample(NAME_POOL, 2)      # both: the element carries two names
     if rng.random() < 0.05:
         link['transform'] = rng.choice(TRANSFORMS)[0]
+    link['box'] = rng.choice(INLINE_BOX_STYLES) if rng.random() < 0.25 else None
     return link
 
 
@@ -111,7 +127,8 @@ def gen_block(rng, counter, depth, unicode_ok):
                 # an inline bookmarked element: one box per line it spans, all carrying the label
                 items.append({'k': next(counter), 'span': True, 'level': rng.randint(1, 7),
                               'state': 'closed' if rng.random() < 0.25 else 'open',
-                              'words': gen_words(rng, rng.choice([1, 3, 8, 20]))})
+                              'words': gen_words(rng, rng.choice([1, 3, 8, 20])),
+                              'box': rng.choice(INLINE_BOX_STYLES) if rng.random() < 0.3 else None})
             else:
                 items.append({'words': gen_words(rng, rng.randint(1, 4))})
         block.update(kind='para', items=items)
@@ -164,8 +181,9 @@ def gen_attach_head(rng):
 
 def gen_attach_option(rng):
     """Attachment objects passed as the `attachments` option of write_pdf."""
-    return [{'content': rng.choice(['opt-a', '', 'zzz é']), 'name': rng.choice([None, 'b é.txt', 'a.txt', 'data.csv']),
-             'description': rng.choice([None, 'opt desc', ''])} for _ in range(rng.choice([0, 0, 0, 1, 2]))]
+    return [{'content': rng.choice(['opt-a', '', 'zzz é']), 'name': rng.choice([None, 'b é.txt', 'a.txt', 'data.csv', 'report', 'report 2', 'a(1).txt', 'aZ.txt',
+                                                                            'a', 'a#b']),
+             'description': rng.choice([None, 'opt desc', ''])} for _ in range(rng.choice([0, 0, 0, 1, 2, 4]))]
 
 
 def gen_doc(rng, adversarial=False, size=None):
@@ -190,14 +208,17 @@ def attr(value):
 
 def link_html(link):
     attrs = [f'data-k="{link["k"]}"', f'href="{attr(link["href"])}"']
-    if link['type'] == 'attachment':
-        attrs.append('rel="attachment"')
+    rel = link.get('rel', 'attachment' if link['type'] == 'attachment' else None)
+    if rel is not None:
+        attrs.append(f'rel="{attr(rel)}"')
     if link['id'] is not None:
         attrs.append(f'id="{attr(link["id"])}"')
     if link['name'] is not None:
         attrs.append(f'name="{attr(link["name"])}"')
-    if link['transform']:
-        attrs.append(f'style="transform:{link["transform"]}"')
+    styles = ([f'transform:{link["transform"]}'] if link['transform'] else []) + (
+        [link['box']] if link.get('box') else [])
+    if styles:
+        attrs.append(f'style="{";".join(styles)}"')
     return f'<a {" ".join(attrs)}>{html_mod.escape(" ".join(link["words"]))}</a>'
 
 
@@ -207,6 +228,8 @@ def item_html(item):
     text = html_mod.escape(' '.join(item['words']))
     if item.get('span'):
         state = ';bookmark-state:closed' if item['state'] == 'closed' else ''
+        if item.get('box'):
+            state += ';' + item['box']
         return (f'<span data-k="{item["k"]}" style="bookmark-level:{item["level"]};bookmark-label:content(text)'
                 f'{state}">{text}</span>')
     return text
@@ -331,7 +354,15 @@ def spec_links(spec):
     return out
 
 
-def spec_anchor_names(spec):
+def link_names(link, shadow=False):
+    """The names an <a> carries: its id and its name.  `shadow`: as the code sees it (known finding
+    anchor-id-shadowed-by-name: the name hides the id)."""
+    if link['id'] and link['name'] and shadow:
+        return [link['name']]
+    return [n for n in (link['id'], link['name']) if n]
+
+
+def spec_anchor_names(spec, shadow=False):
     """Ids / names in document order (an element's id comes with the element, before its descendants)."""
     out = []
     for block in walk_blocks(spec['blocks']):
@@ -340,10 +371,25 @@ def spec_anchor_names(spec):
         links = ([block['link']] if block['kind'] == 'heading' and block['link'] else
                  [i for i in block.get('items', []) if 'href' in i])
         for link in links:
-            if link['id']:
-                out.append(link['id'])
-            elif link['name']:
-                out.append(link['name'])
+            out.extend(link_names(link, shadow))
+    return out
+
+
+def has_shadowed_id(spec):
+    return any(l['id'] and l['name'] and l['id'] != l['name'] for l in spec_links(spec))
+
+
+def spec_elements(spec):
+    """The elements of the generated document that can carry a link or a name, in document order:
+    [data-k, tag, id, name, href, rel] (what `Wp.LinkAttr.documentLinks` reads)."""
+    out = []
+    for block in walk_blocks(spec['blocks']):
+        tag = block['tag'] if block['kind'] == 'heading' else 'p' if block['kind'] == 'para' else 'div'
+        out.append([block['k'], tag, block['id'], None, None, None])
+        for link in ([block['link']] if block['kind'] == 'heading' and block['link'] else
+                     [i for i in block.get('items', []) if 'href' in i]):
+            out.append([link['k'], 'a', link['id'], link['name'], link['href'],
+                        link.get('rel', 'attachment' if link['type'] == 'attachment' else None)])
     return out
 
 
@@ -357,8 +403,34 @@ def dim_wire(d):
     raise Unsupported(f'unit {d.unit}')
 
 
+GEOM_KEYS = ('position_x', 'position_y', 'width', 'height', 'margin_top', 'margin_right', 'margin_bottom', 'margin_left',
+             'padding_top', 'padding_right', 'padding_bottom', 'padding_left', 'border_top_width', 'border_right_width',
+             'border_bottom_width', 'border_left_width')
+
+
+def geom_wire(box):
+    """The used values of a laid-out box (attributes, no method of the box is called)."""
+    try:
+        return [G.frac(getattr(box, key)) for key in GEOM_KEYS]
+    except (AttributeError, TypeError, ValueError):
+        raise Unsupported('box without used values')
+
+
+def expected_hit(box):
+    """The clause on the clickable rectangle, stated on the used values: the border box; for an inline box the
+    border box horizontally and the whole line height (its margin box) vertically."""
+    from weasyprint.formatting_structure import boxes
+    g = dict(zip(GEOM_KEYS, geom_wire(box)))
+    x = g['position_x'] + g['margin_left']
+    w = g['width'] + g['padding_left'] + g['padding_right'] + g['border_left_width'] + g['border_right_width']
+    h = g['height'] + g['padding_top'] + g['padding_bottom'] + g['border_top_width'] + g['border_bottom_width']
+    if isinstance(box, boxes.InlineBox):
+        return x, g['position_y'], w, h + g['margin_top'] + g['margin_bottom']
+    return x, g['position_y'] + g['margin_top'], w, h
+
+
 def real_box_wire(box):
-    """What gather_anchors reads from a laid-out box, as the wire form of `Anchors.GBox`."""
+    """What gather_anchors reads from a laid-out box, as the wire form of `Anchors.RBox`."""
     from weasyprint.formatting_structure import boxes
     if isinstance(box, boxes.InlineBox):
         kind = 'inline'
@@ -379,11 +451,7 @@ def real_box_wire(box):
         else:
             raise Unsupported(name)
     origin = box.style['transform_origin']
-    try:
-        border = [G.frac(v) for v in (box.border_box_x(), box.border_box_y(), box.border_width(), box.border_height())]
-        hit = [G.frac(v) for v in box.hit_area()]
-    except (AttributeError, TypeError):
-        border, hit = [F(0)] * 4, [F(0)] * 4
+    geom = geom_wire(box)
     level = box.style['bookmark_level']
     link = box.style['link']
     if link is not None:
@@ -393,7 +461,7 @@ def real_box_wire(box):
     if box.is_input():
         raise Unsupported('input')
     anchor = box.style['anchor']
-    return [kind, ops, dim_wire(origin[0]), dim_wire(origin[1])] + border + hit + [
+    return [kind, ops, dim_wire(origin[0]), dim_wire(origin[1]), geom,
         esc(box.bookmark_label or ''), None if level == 'none' else level, esc(box.style['bookmark_state']), link,
         bool(box.is_attachment()), None if anchor is None else esc(anchor),
         [real_box_wire(child) for child in box.all_children()]]
@@ -649,9 +717,12 @@ def add_document_cases(secs, spec, run, stats):
             stats['unsupported'] += 1
             continue
         payload = bool(page.anchors or page.links or page.bookmarks)
-        secs['gather'].add(sx.line('gather', wire), gathered_wire(page), meta=meta, nontrivial=payload,
+        styled = any(getattr(box, 'margin_left', 0) or getattr(box, 'margin_right', 0)
+                     for _, _, _, box in page.links if type(box).__name__ == 'InlineBox')
+        secs['gather'].add(sx.line('gatherraw', wire), gathered_wire(page), meta=meta, nontrivial=payload,
                            tags=[t for t, c in (('anchors', page.anchors), ('links', page.links),
-                                                ('bookmarks', page.bookmarks)) if c])
+                                                ('bookmarks', page.bookmarks),
+                                                ('inline-link-with-horizontal-margin', styled)) if c])
 
     # make_bookmark_tree on the real pages
     pages_wire = [[G.frac(p.height), [[lvl, esc(lab), G.frac(x), G.frac(y), esc(st)]
@@ -724,12 +795,20 @@ def add_document_cases(secs, spec, run, stats):
                                                    for k, t, rect, _ in p.links if k == 'attachment']]
                         for p in document.pages])
         n_link = sum(1 for p in document.pages for l in p.links if l[0] == 'attachment')
+        doc_keys = [expected_attachment_name(None, u).encode() for u, a in
+                    ((urllib.parse.urljoin(base, el['href']), None) for el in spec['attach_head'] if el['href'] is not None)
+                    if table[u]['size'] is not None]
+        doc_keys += [expected_attachment_name(a['name'], None).encode() for a in spec['attach_option']]
         secs['attach'].add(line, pdf.attachments_wire(), meta=meta,
                            nontrivial=bool(n_link or spec['attach_head'] or spec['attach_option']),
                            tags=[t for t, c in (('link-level', n_link), ('link-rel-attachment', spec['attach_head']),
                                                 ('option', spec['attach_option']),
                                                 ('failing', any(a['size'] is None for a in table.values())),
-                                                ('missing-href', any(el['href'] is None for el in spec['attach_head'])))
+                                                ('missing-href', any(el['href'] is None for el in spec['attach_head'])),
+                                                ('keys-reordered', doc_keys != sorted(doc_keys, key=written_form)),
+                                                ('keys-written-form-differs', sorted(doc_keys) != sorted(
+                                                    doc_keys, key=written_form)),
+                                                ('keys-duplicate', len(set(doc_keys)) < len(doc_keys)))
                                  if c])
 
     # metadata
@@ -744,16 +823,51 @@ def add_document_cases(secs, spec, run, stats):
         for link_type, target, _, box in page.links:
             k = int(box.element.get('data-k'))
             if not by_element or by_element[-1][0] != k:
-                by_element.append([k, esc(link_type), esc(target)])
+                by_element.append([k, link_type, G.cps(target)])
     names = []
     for page in document.pages:
         names.extend(n for n in page.anchors if n not in names)
-    out = sx.dumps(by_element) + ' ' + sx.dumps([esc(n) for n in names])
+    out = sx.dumps(by_element) + ' ' + sx.dumps([G.cps(n) for n in names])
     links = spec_links(spec)
-    line = sx.line('docspec', [[l['k'], 'fragment' if l['href'].startswith('#') or l.get('samedoc') else 'url',
-                                esc(l['target']), l['type'] == 'attachment'] for l in links],
-                   [esc(n) for n in spec_anchor_names(spec)])
-    secs['elements'].add(line, out, meta=meta, nontrivial=bool(links), tags=sorted({l['type'] for l in links}))
+
+    def opt(v):
+        return None if v is None else G.cps(v)
+    line = sx.line('docels', G.cps(base_url()), [[k, tag, opt(i), opt(n), opt(h), opt(r)]
+                                                 for k, tag, i, n, h, r in spec_elements(spec)])
+    secs['elements'].add(line, out, meta=meta, nontrivial=bool(links),
+                         tags=sorted({l['type'] for l in links}) + [t for t, c in (
+                             ('rel-other-spelling', any(l.get('rel') not in (None, 'attachment') for l in links)),
+                             ('id-and-name', any(l['id'] and l['name'] for l in links)),
+                             ('same-path-other-query', any((l['href'] or '').startswith('?') for l in links))) if c])
+
+
+def regression_specs():
+    """Corpus-first documents: the inputs of the repaired findings of C18 (a `fixed:` line of known_findings.txt
+    suppresses nothing — if the defect comes back the sections below disagree and the oracle reports it)."""
+    def para(k, ident):
+        return {'k': k, 'break_before': False, 'id': ident, 'transform': None, 'kind': 'para',
+                'items': [{'words': ['aa']}]}
+
+    def heading(k, ident, transform):
+        return {'k': k, 'break_before': False, 'id': ident, 'transform': transform, 'kind': 'heading', 'level': 1,
+                'tag': 'h1', 'state': 'open', 'words': ['one'], 'link': None, 'no_bookmark': False,
+                'string_label': None, 'pseudo': []}
+
+    def option(content, name):
+        return {'content': content, 'name': name, 'description': None}
+    base = {'width': 200, 'height': 100, 'margin': 0, 'zoom': 1, 'lang': None, 'head': [], 'attach_head': [],
+            'attach_option': []}
+    return [
+        # dests-not-byte-sorted, fixed by 09da5a8: ids `z` and `aé`
+        dict(base, blocks=[para(0, 'z'), para(1, 'aé')]),
+        dict(base, blocks=[para(0, 'é'), para(1, 'Zed'), para(2, 'aé'), para(3, 'a')], zoom=2),
+        # embedded-files-not-sorted, fixed by 186e86a: attachments b.txt then a.txt
+        dict(base, blocks=[para(0, None)], attach_option=[option('1', 'b.txt'), option('2', 'a.txt')]),
+        dict(base, blocks=[para(0, None)], attach_option=[option('1', 'b é.txt'), option('2', None), option('3', 'a.txt')],
+             attach_head=[{'href': 'data:text/plain,DOC1', 'title': None}]),
+        # anchor-double-transform, fixed by a37277b: <h1 id=a style="transform: translate(…)">
+        dict(base, blocks=[heading(0, 'a', 'translate(8px, 4px)'), para(1, 'b')]),
+    ]
 
 
 def document_sections(prop, run):
@@ -791,10 +905,13 @@ def document_sections(prop, run):
             'metadata model run on the generated <title>/<meta>/lang; non-trivial = at least one head element'),
         'elements': run.section(
             'doc-link-elements', 'link elements (type, target) and anchor names of Page.links / Page.anchors against '
-            'the generated document; non-trivial = at least one link'),
+            'the model of get_link_attribute / is_attachment / the anchor cascade run on the href, rel, id, name '
+            'attributes of the generated document and its base URL; non-trivial = at least one link'),
     }
     stats = collections.Counter()
     rng = run.rng
+    for spec in regression_specs():
+        add_document_cases(secs, spec, run, stats)
     for i in range(run.n(200, 3600)):
         spec = gen_doc(rng, size=80 if i % 97 == 96 else None)
         add_document_cases(secs, spec, run, stats)
@@ -864,8 +981,35 @@ def expected_structure(headings):
     return wire(root), visible(root)
 
 
+def dest_key_bytes(name):
+    """The bytes of the string object a named destination is written as (what a reader compares)."""
+    return name.encode('ascii') if name.isascii() else b'\xfe\xff' + name.encode('utf-16-be')
+
+
+def expected_attachment_name(name, url):
+    """`name`, else the basename of the URL's path, else attachment.bin (clause of write_pdf_attachment)."""
+    from os.path import basename
+    from urllib.parse import unquote, urlsplit
+    if name:
+        return name
+    if url and urlsplit(url).path:
+        return basename(unquote(urlsplit(url).path))
+    return 'attachment.bin'
+
+
 def oracle(spec):
     """The clauses of C18 stated directly on the rendered document.  -> (what, finding id) | None."""
+    found = _oracle(spec, False)
+    if found and found[1] is None and has_shadowed_id(spec):
+        # is the hidden id of an <a id name> (known finding) all that is wrong?
+        again = _oracle(spec, True)
+        if again is None or again[1] is not None:
+            return found[0], 'anchor-id-shadowed-by-name'
+        return again
+    return found
+
+
+def _oracle(spec, shadow):
     fill_targets(spec)
     try:
         document, pdf = render_spec(spec)
@@ -912,7 +1056,7 @@ def oracle(spec):
                 continue
             page, box = first_box[block['k']]
             dest = pdf.objects[number]['Dest']
-            want = to_pdf(page, *box.hit_area()[:2])
+            want = to_pdf(page, *expected_hit(box)[:2])
             if not close((dest[2], dest[3]), want):
                 return (f'outline {block["label"]!r} points to {(dest[2], dest[3])}; the top-left corner of its '
                         f'element is at {want} (PDF points)'), None
@@ -922,20 +1066,21 @@ def oracle(spec):
     if len(set(dest_names)) != len(dest_names):
         return f'named destinations listed twice: {dest_names}', None
     wanted_names = []
-    for n in spec_anchor_names(spec):
+    for n in spec_anchor_names(spec, shadow):
         if n not in wanted_names:
             wanted_names.append(n)
     if sorted(dest_names) != sorted(esc(n) for n in wanted_names):
         return f'named destinations {dest_names}, ids of the document {wanted_names}', None
-    if dest_names != [esc(n) for n in sorted(wanted_names)]:
-        return f'named destinations not sorted: {dest_names}', None
-    key_bytes = [n.encode('ascii') if n.isascii() else b'\xfe\xff' + n.encode('utf-16-be') for n in sorted(wanted_names)]
+    in_key_order = sorted(wanted_names, key=dest_key_bytes)
+    if dest_names != [esc(n) for n in in_key_order]:
+        return (f'named destinations {dest_names} are not in the byte order of their keys '
+                f'{[dest_key_bytes(n) for n in in_key_order]} (ISO 32000-1 7.9.6)'), None
     element_of_name = {}
     for block in walk_blocks(spec['blocks']):
         candidates = [(block['id'], block['k'])]
         for link in ([block['link']] if block['kind'] == 'heading' and block['link'] else
                      [i for i in block.get('items', []) if 'href' in i]):
-            candidates.append((link['id'] or link['name'], link['k']))
+            candidates.extend((n, link['k']) for n in link_names(link, shadow))
         for name, k in candidates:
             if name:
                 element_of_name.setdefault(name, k)
@@ -953,7 +1098,7 @@ def oracle(spec):
         for name, page_index, x, y in dests_wire:
             raw = next(n for n in wanted_names if esc(n) == name)
             page, box = first_anchor_box[raw]
-            want = to_pdf(page, *box.hit_area()[:2])
+            want = to_pdf(page, *expected_hit(box)[:2])
             if not close((F(x), F(y)), want):
                 return (f'destination {raw!r} points to {(F(x), F(y))}; the first element carrying it is at {want} '
                         f'(PDF points)'), None
@@ -961,7 +1106,7 @@ def oracle(spec):
             kept = [l for l in page.links if l[0] != 'internal' or esc(l[1]) in dest_names]
             kept = [l for l in kept if l[0] != 'attachment'] + [l for l in kept if l[0] == 'attachment']
             for annot, link in zip(annots, kept):
-                x, y, w, h = link[3].hit_area()
+                x, y, w, h = expected_hit(link[3])
                 want = to_pdf(page, x, y) + to_pdf(page, x + w, y + h)
                 if not close(tuple(F(v) for v in annot[-4:]), want):
                     return (f'annotation of link {link[:2]} has Rect {[str(v) for v in annot[-4:]]}; its box covers '
@@ -992,19 +1137,28 @@ def oracle(spec):
         if el['href'] is None or not el['href'].startswith('data:'):
             continue
         with urllib.request.urlopen(el['href']) as response:
-            want_files.append((el['title'] or '', response.read()))
+            want_files.append((expected_attachment_name(None, el['href']).encode(), el['title'] or '', response.read()))
     for a in spec.get('attach_option') or ():
-        want_files.append((a['description'] or '', a['content'].encode()))
+        want_files.append((expected_attachment_name(a['name'], None).encode(), a['description'] or '',
+                           a['content'].encode()))
     names = pdf.catalog.get('Names', {})
     got_files = []
     if 'EmbeddedFiles' in names:
         array = c18_pdf.deref(pdf.objects, names['EmbeddedFiles'])['Names']
-        for ref in array[1::2]:
+        for key, ref in zip(array[::2], array[1::2]):
             filespec = pdf.objects[int(ref)]
-            got_files.append((str(filespec['Desc']), pdf.objects[int(filespec['EF']['F'])]['__stream__']))
-    if got_files != want_files:
-        return (f'embedded files {[(d, c[:20]) for d, c in got_files]}; attachments of the document '
-                f'{[(d, c[:20]) for d, c in want_files]}'), None
+            if filespec['F'].raw != key.raw or str(filespec['UF']).encode() != key.raw:
+                return f'/EmbeddedFiles key {key.raw!r} names the file {filespec["F"].raw!r} / {str(filespec["UF"])!r}', None
+            got_files.append((key.raw, str(filespec['Desc']), pdf.objects[int(filespec['EF']['F'])]['__stream__']))
+    # every attachment once, unchanged (name, description, bytes) …
+    if sorted(got_files) != sorted(want_files):
+        return (f'embedded files {[(k, d, c[:20]) for k, d, c in got_files]}; attachments of the document '
+                f'{[(k, d, c[:20]) for k, d, c in want_files]}'), None
+    # … attachments of one name in document order (only their key can move them)
+    for key in {k for k, _, _ in want_files}:
+        if [f for f in got_files if f[0] == key] != [f for f in want_files if f[0] == key]:
+            return f'attachments named {key!r} are not listed in document order', None
+    embedded_keys = [k for k, _, _ in got_files]
     for index, (page, pdf_page) in enumerate(zip(document.pages, pdf.pages)):
         want_n = sum(1 for k, t, _, _ in page.links if k == 'attachment' and t.startswith('data:'))
         got_n = sum(1 for r in pdf_page.get('Annots', [])
@@ -1020,9 +1174,26 @@ def oracle(spec):
     got = [(k, ''.join(chr(int(c)) for c in v)) for k, v in sx.loads_line(pdf.info_wire())[0]]
     if got != want:
         return f'/Info {got}, metadata of the document {want}', None
-    if key_bytes != sorted(key_bytes):
-        return f'/Dests keys are not in byte order: {key_bytes}', 'dests-not-byte-sorted'
+    # the keys of the /EmbeddedFiles name tree: sorted by their bytes, none twice (ISO 32000-1 7.9.6)
+    if embedded_keys != sorted(embedded_keys):
+        return (f'/EmbeddedFiles keys are not in byte order: {embedded_keys}',
+                'embedded-files-written-form-order' if written_form_sorted(embedded_keys) else None)
+    if len(set(embedded_keys)) != len(embedded_keys):
+        return f'/EmbeddedFiles lists a key twice: {embedded_keys}', 'embedded-files-duplicate-keys'
     return None
+
+
+def written_form(key):
+    """pydyf.String(<bytes>).data: the literal string as written."""
+    import re
+    return b'(' + re.sub(rb'([\\\(\)])', rb'\\\1', key) + b')'
+
+
+def written_form_sorted(keys):
+    """Non-decreasing in the written form: the order the known finding `embedded-files-written-form-order`
+    describes (anything else is a new defect)."""
+    forms = [written_form(k) for k in keys]
+    return forms == sorted(forms)
 
 
 def reference_meta(head):
@@ -1215,16 +1386,6 @@ _BASE = ('<style>@page{size:200px 100px;margin:0}body{margin:0;font:20px/20px we
          'h1,div{display:block;font-size:20px;margin:0;font-weight:normal}</style>')
 
 
-def replay_dests_not_byte_sorted():
-    """ids `z` and `aé`: the keys of /Dests must be in the byte order of the written strings."""
-    docs.quiet()
-    document = docs.render(_BASE + '<div id="z">one</div><div id="aé">two</div>')
-    pdf = Pdf(document.write_pdf(uncompressed_pdf=True))
-    names = [str(k) for k in c18_pdf.deref(pdf.objects, pdf.catalog['Names']['Dests'])['Names'][::2]]
-    keys = [n.encode('ascii') if n.isascii() else b'\xfe\xff' + n.encode('utf-16-be') for n in names]
-    return keys != sorted(keys)
-
-
 def replay_pdf_string_cr():
     """<title>a&#13;b</title>: the title read back from /Info must be the title of the document."""
     docs.quiet()
@@ -1233,12 +1394,29 @@ def replay_pdf_string_cr():
     return str(pdf.info.get('Title')) != document.metadata.title
 
 
-def replay_embedded_files_not_sorted():
-    """Attachments b.txt then a.txt: the keys of /EmbeddedFiles must be sorted."""
+def _embedded_keys(names):
     from weasyprint import Attachment
     docs.quiet()
     document = docs.render(_BASE + '<div>x</div>')
     pdf = Pdf(document.write_pdf(uncompressed_pdf=True, attachments=[
-        Attachment(string='1', name='b.txt'), Attachment(string='2', name='a.txt')]))
-    keys = [k.raw for k in c18_pdf.deref(pdf.objects, pdf.catalog['Names']['EmbeddedFiles'])['Names'][::2]]
-    return keys != sorted(keys) or len(set(keys)) != len(keys)
+        Attachment(string=str(i), name=name) for i, name in enumerate(names)]))
+    return [k.raw for k in c18_pdf.deref(pdf.objects, pdf.catalog['Names']['EmbeddedFiles'])['Names'][::2]]
+
+
+def replay_embedded_files_written_form_order():
+    """Attachments `report` then `report 2`: the key `report` is a prefix of `report 2` and must come first."""
+    keys = _embedded_keys(['report', 'report 2'])
+    return keys != sorted(keys)
+
+
+def replay_embedded_files_duplicate_keys():
+    """Two attachments named a.txt: the name tree must not hold a key twice."""
+    keys = _embedded_keys(['a.txt', 'a.txt'])
+    return len(set(keys)) != len(keys)
+
+
+def replay_anchor_id_shadowed():
+    """<a id=x name=y>: both x and y name the element; a link to #x must find it."""
+    docs.quiet()
+    document = docs.render(_BASE + '<div><a id="x" name="y">target</a> <a href="#x">link</a></div>')
+    return 'x' not in document.pages[0].anchors
